@@ -2,7 +2,7 @@
    sylvia-derive/src/contract/communication/reply.rs translated on every run (GenImpReplyData.replydata_fns,
    Facts/ReplyDataRefine2.v). Statements only. *)
 From Coq Require Import String List Bool.
-Require Import SV.Model.Imp SV.Model.GenImpReplyData SV.Facts.ImpFacts SV.Facts.MacroRefine SV.Facts.CheckRefine SV.Facts.ReplyDataRefine2.
+Require Import SV.Model.Imp SV.Model.GenImpReplyData SV.Facts.ImpFacts SV.Facts.MacroRefine SV.Facts.CheckRefine SV.Facts.ReplyDataRefine2 SV.Facts.ReplyMergeRefine.
 Import ListNotations.
 Open Scope string_scope.
 Open Scope list_scope.
@@ -36,6 +36,35 @@ Proof.
   - intros H. destruct (payload_of o fields data) as [|p ps]; [contradiction|]. eexists. reflexivity.
 Qed.
 
+(* A SECOND handler of the same reply id (`ReplyData::merge`, translated): for EVERY entry with at least one handler and EVERY further
+   handler - in whatever order they were declared - the new handler is appended under its own name and outcome; the payload of the
+   entry stays; the data field is the entry's own when it has one, else the new handler's (so a success handler's `#[sv::data]` is
+   kept when the error handler was declared first: C09 / C14); and the diagnostics gained are exactly: a different number of
+   payload parameters, each position whose types differ, payloads marked differently (C18).
+   `is_payload_marked` is an oracle: any function of that name answering a boolean that depends on the payload. *)
+Theorem c07_translated_second_handler_of_a_reply_id : forall fd marked,
+  (forall d l, calls (RDM fd) (S d) "extern::is_payload_marked" [VArr l] (CVal (VBool (marked l)))) ->
+  forall d dg id hid n0 o0 hs data (pa : list pfield) name2 (o2 : outcome) (fields2 : list pfield) data2 pbf,
+  payload_of o2 (map pfield_v fields2) data2 = map pfield_v pbf ->
+  calls (RDM fd) (S (S (S d))) "ReplyData::merge"
+    [entry_v dg id hid (VCon "()" [n0; o0] :: hs) data pa; handler_v name2 o2 (map pfield_v fields2) data2]
+    (CVal (entry_v (dg ++ quantity_diag pa pbf ++ flat_map mismatch (combine pa pbf) ++ marking_diag marked pa pbf)
+                   id hid ((VCon "()" [n0; o0] :: hs) ++ [VCon "()" [name2; outcome_v o2]])
+                   (match data with Some f => Some f | None => data2 end) pa)).
+Proof. exact translated_reply_data_merge. Qed.
+
+(* the oracle's assumption is satisfiable *)
+Theorem c07_translated_an_is_payload_marked :
+  forall d l, calls (RDM (stub "extern::is_payload_marked" ["payload"] (EConst (VBool false)))) (S d) "extern::is_payload_marked" [VArr l]
+                (CVal (VBool ((fun _ => false) l))).
+Proof. exact an_is_payload_marked. Qed.
+
+(* merged handlers whose payload types differ at some position are refused (C18) *)
+Theorem c18_translated_mismatched_payload_types_are_reported : forall (pa pbf : list pfield) j ta ra tb rb,
+  nth_error pa j = Some (ta, ra) -> nth_error pbf j = Some (tb, rb) -> value_eqb ta tb = false ->
+  In (VStr "Mismatched parameter in reply handlers.") (flat_map mismatch (combine pa pbf)).
+Proof. exact mismatched_types_are_reported. Qed.
+
 Example c07_translated_reply_entry_example :
   length replydata_fns = 2 /\
   payload_of OSuccess [VStr "data: Option<Binary>"; VStr "param: String"] (Some (VStr "data: Option<Binary>")) = [VStr "param: String"] /\
@@ -46,3 +75,6 @@ Proof. vm_compute. repeat split; reflexivity. Qed.
 Print Assumptions c07_translated_reply_entry_of_one_handler.
 Print Assumptions c07_translated_payload_of_a_handler.
 Print Assumptions c18_translated_missing_payload_parameter.
+Print Assumptions c07_translated_second_handler_of_a_reply_id.
+Print Assumptions c07_translated_an_is_payload_marked.
+Print Assumptions c18_translated_mismatched_payload_types_are_reported.
